@@ -805,6 +805,11 @@ func (m *Manager) configureTasks(envId uid.ID, tasks Tasks) error {
 }
 
 func (m *Manager) transitionTasks(envId uid.ID, tasks Tasks, src string, event string, dest string, commonArgs controlcommands.PropertyMap) error {
+	if len(tasks) == 0 {
+		// nothing to command: the transition succeeds at once (a command without targets gets no response at all,
+		// which would otherwise be reported as an error)
+		return nil
+	}
 	notify := make(chan controlcommands.MesosCommandResponse)
 	receivers, err := tasks.GetMesosCommandTargets()
 	if err != nil {
